@@ -265,6 +265,78 @@ def run_values(ctx, vi, via, fallback='none'):
                     detail={'value': name, 'via': via})
 
 
+def run_viafile(ctx, vi, via, slot):
+    """The value sits in a real policy file (main file or policy.d) of an
+    enforcer whose service registered defaults -- under a plain registered
+    name, under the NEW name of a renamed policy, or under its deprecated
+    OLD name (whose override is handed on to the new name).  The name it
+    governs must deny, or decide as if the entry were not there (rejected
+    at load); the always-allow spellings must allow."""
+    from oslo_policy import policy
+    common.set_ctx(ctx)
+    name, value = (VALUES + VALID_TRUE)[vi]
+    valid_true = vi >= len(VALUES)
+    if via == 'json' and name in ('date', 'list_set'):
+        return
+    where = str(ctx.choice('where', ['main', 'dir']))
+    key, asked = {'plain': ('p', 'p'), 'new': ('new', 'new'),
+                  'old': ('old', 'new')}[slot]
+
+    def defaults():
+        dep = policy.DeprecatedRule('old', 'role:r2', deprecated_reason='r',
+                                    deprecated_since='s')
+        return [policy.RuleDefault('p', 'role:r1'),
+                policy.RuleDefault('new', 'role:r1', deprecated_rule=dep)]
+
+    def text(doc):
+        if via == 'json':
+            return json.dumps(doc, default=lambda o: sorted(o) if isinstance(
+                o, (set, frozenset)) else str(o))
+        return yaml.safe_dump(doc)
+    env = common.PolicyEnv()
+    try:
+        doc = {key: value, 'other': 'role:r2'}
+        fn = 'policy.' + via
+        if where == 'main':
+            env.write(fn, None, raw=text(doc))
+        else:
+            env.write(fn, None, raw=text({'other': 'role:r2'}))
+            env.write('policy.d/10.' + via, None, raw=text(doc))
+        enf = env.enforcer(defaults=defaults(), policy_file=env.path(fn))
+        env.write('absent.' + via, None, raw=text({'other': 'role:r2'}))
+        ref = env.enforcer(defaults=defaults(), policy_dirs=(),
+                           policy_file=env.path('absent.' + via))
+        creds = {'roles': ctx.roles('role', ROLES)}
+        got = common.decision(ctx, enf, asked, creds)
+        absent = common.decision(ctx, ref, asked, creds)
+        ctx.observe('decision', got)
+        ctx.cover('viafile:' + slot)
+        det = {'value': name, 'via': via, 'slot': slot, 'where': where}
+        load_errors = {'ValueError', 'InvalidDefinitionError', 'TypeError'}
+        if valid_true:
+            common.require_decision(ctx, got, z3.BoolVal(True),
+                                    'viafile:always-allow-denied',
+                                    detail=det)
+            return
+        ctx.require(set(got.exc_names()) <= load_errors,
+                    'viafile:undocumented-exception',
+                    detail=dict(det, exc=got.exc_names()))
+        # allowed only where it would be allowed without the entry
+        ctx.require(mkbool(z3.Implies(got.truth(), absent.truth())),
+                    'viafile:non-rule-value-allows',
+                    key='viafile:non-rule-value-allows:%s' % name,
+                    detail=lambda m: dict(det, got=got.describe(m),
+                                          absent=absent.describe(m)))
+    finally:
+        env.close()
+
+
+def cubes_viafile(tier, seed):
+    n = len(VALUES) + len(VALID_TRUE)
+    return [{'vi': i, 'via': via, 'slot': slot} for i in range(n)
+            for via in ('json', 'yaml') for slot in ('plain', 'new', 'old')]
+
+
 def cubes_values(tier, seed):
     n = len(VALUES) + len(VALID_TRUE)
     return [{'vi': i, 'via': via, 'fallback': fb} for i in range(n)
@@ -333,12 +405,14 @@ HARNESSES = {
     'text': {'fn': run_text, 'cubes': cubes_text,
              'concretize_limit': 5000000},
     'values': {'fn': run_values, 'cubes': cubes_values},
+    'viafile': {'fn': run_viafile, 'cubes': cubes_viafile},
     'lists': {'fn': run_lists, 'cubes': cubes_lists},
 }
 
 REQUIRED_COVER = ['tokens:rejected', 'text:rejected', 'text:sentence',
                   'values:denied',
-                  'values:always-allow', 'lists:evaluated']
+                  'values:always-allow', 'lists:evaluated',
+                  'viafile:plain', 'viafile:new', 'viafile:old']
 
 
 def cube_weight(hname, params):
@@ -361,6 +435,12 @@ def evidence(tier):
                       '{from_dict, JSON text, YAML text} x all subsets of '
                       '%s' % (len(VALUES), ROLES),
             'lists': 'list rules with entries from %r' % (ODD,),
+            'viafile': 'the same values in a real JSON / YAML policy file '
+                       '(main file or policy.d) of an enforcer with '
+                       'registered defaults, under a plain registered name, '
+                       'the new name or the deprecated old name of a renamed '
+                       'policy; compared with the same enforcer without the '
+                       'entry',
         },
         'symbols': ['t<i>: token kind', 's#len, s#<i>: text characters',
                     'role.<r>: Bool', 'leaf.<i>: Bool',
